@@ -15,17 +15,20 @@
 (***************************************************************************)
 EXTENDS Naturals, Sequences, FiniteSets, TLC
 
-CONSTANTS Streams,   \* set of records [A: sequence of announced totals, trunc: bytes available, max: limit or 0]
+CONSTANTS Streams,   \* set of records [A: sequence of announced totals, bad: indices of malformed messages, trunc: bytes available, max: limit or 0]
           Chunks     \* candidate chunk sizes besides "all requested" and "all available"
 
 VARIABLES A, trunc, max,           \* the run's parameters (chosen in Init / bound by the trace's reset event)
+          bad,                     \* the messages whose content cannot be decoded (a fixed-width item announcing another width, ...):
+                                   \* the extent of a message is what its header announces, whatever the type byte says; such a message
+                                   \* is received in full, reported as an encoding error, and the stream stays in step
           pc,                      \* "idle" | "reading" | "failed"
           pos,                     \* bytes the transport has handed over so far
           i,                       \* index of the message being received
           read, need, cap,         \* Recv's locals: bytes of this message read, bytes needed, buffer capacity
           eofPending,              \* the transport already signalled end of stream together with the last bytes
           out                      \* results of the Recv calls so far: <<"msg", k, consumed>> or <<"err", kind, consumed>>
-vars == <<A, trunc, max, pc, pos, i, read, need, cap, eofPending, out>>
+vars == <<A, trunc, max, bad, pc, pos, i, read, need, cap, eofPending, out>>
 
 RECURSIVE Sum(_, _)
 Sum(s, k) == IF k = 0 THEN 0 ELSE s[k] + Sum(s, k - 1)
@@ -33,7 +36,7 @@ Total(s) == Sum(s, Len(s))
 Min(a, b) == IF a < b THEN a ELSE b
 MaxOf(a, b) == IF a > b THEN a ELSE b
 
-Init == /\ \E s \in Streams : A = s.A /\ trunc = s.trunc /\ max = s.max
+Init == /\ \E s \in Streams : A = s.A /\ trunc = s.trunc /\ max = s.max /\ bad = s.bad
         /\ pc = "idle" /\ pos = 0 /\ i = 1 /\ read = 0 /\ need = 8 /\ cap = 512 /\ eofPending = FALSE /\ out = <<>>
 
 Avail == trunc - pos
@@ -42,13 +45,13 @@ Requested == need - read
 \* a Recv call begins (the caller keeps calling until an error is returned)
 RecvStart == /\ pc = "idle"
              /\ pc' = "reading" /\ read' = 0 /\ need' = 8 /\ cap' = 512
-             /\ UNCHANGED <<A, trunc, max, pos, i, eofPending, out>>
+             /\ UNCHANGED <<A, trunc, max, bad, pos, i, eofPending, out>>
 
 \* the transport has nothing left: the read fails; Recv returns an error (never a message)
 ReadEOF == /\ pc = "reading" /\ (Avail = 0 \/ eofPending)
            /\ pc' = "failed"
            /\ out' = Append(out, <<"err", IF read = 0 THEN "eof-clean" ELSE "eof-inside", pos>>)
-           /\ UNCHANGED <<A, trunc, max, pos, i, read, need, cap, eofPending>>
+           /\ UNCHANGED <<A, trunc, max, bad, pos, i, read, need, cap, eofPending>>
 
 \* the transport hands over n bytes (with = TRUE: together with the end-of-stream indication)
 ReadChunk(n, with) ==
@@ -65,7 +68,7 @@ ReadChunk(n, with) ==
                   /\ pc' = "failed" /\ out' = Append(out, <<"err", "toobig", pos + n>>)
                   /\ read' = r2 /\ need' = need2 /\ UNCHANGED <<cap, i>>
              ELSE IF r2 >= need2
-             THEN /\ pc' = "idle" /\ out' = Append(out, <<"msg", i, pos + n>>)
+             THEN /\ pc' = "idle" /\ out' = Append(out, <<IF i \in bad THEN "bad" ELSE "msg", i, pos + n>>)
                   /\ i' = i + 1 /\ read' = r2 /\ need' = need2 /\ UNCHANGED cap
              ELSE \/ /\ read' = r2 /\ need' = need2
                      /\ cap' = MaxOf(cap, need2)       \* the buffer grows to the announced size, never beyond
@@ -75,7 +78,7 @@ ReadChunk(n, with) ==
                      /\ with
                      /\ pc' = "failed" /\ out' = Append(out, <<"err", "eof-inside", pos + n>>)
                      /\ read' = r2 /\ need' = need2 /\ UNCHANGED <<cap, i>>
-    /\ UNCHANGED <<A, trunc, max>>
+    /\ UNCHANGED <<A, trunc, max, bad>>
 
 ChunkChoices == Chunks \cup {Requested, Avail}
 Next == \/ RecvStart \/ ReadEOF
@@ -83,17 +86,18 @@ Next == \/ RecvStart \/ ReadEOF
 Spec == Init /\ [][Next]_vars
 
 -----------------------------------------------------------------------------
-Msgs == {k \in 1..Len(out) : out[k][1] = "msg"}
+Msgs == {k \in 1..Len(out) : out[k][1] \in {"msg", "bad"}}     \* the messages received in full, decodable or not
 InOrder == \A k \in Msgs : out[k][2] = k                      \* the k-th result is message k: in order, none skipped
 ExactExtent == \A k \in Msgs : out[k][3] = Sum(A, out[k][2])  \* consumed exactly the bytes of messages 1..k
 OnlyCompleteMessages == \A k \in Msgs : Sum(A, out[k][2]) <= trunc
 TruncationIsError ==
     pc = "failed" => /\ out[Len(out)][1] = "err"
-                     /\ \A k \in 1..(Len(out) - 1) : out[k][1] = "msg"
+                     /\ \A k \in 1..(Len(out) - 1) : out[k][1] \in {"msg", "bad"}
 NeverBeyondMessage == pc = "reading" => pos + Requested <= Sum(A, Min(i, Len(A))) + (IF i > Len(A) THEN 8 ELSE 0)
 NoOverBuffer == /\ pc = "reading" => cap <= MaxOf(512, IF i <= Len(A) THEN A[i] ELSE 8)
                 /\ max > 0 => cap <= MaxOf(512, max)
-Inv == InOrder /\ ExactExtent /\ OnlyCompleteMessages /\ TruncationIsError /\ NeverBeyondMessage /\ NoOverBuffer
+BadIsReported == \A k \in Msgs : (out[k][1] = "bad") <=> (out[k][2] \in bad)
+Inv == BadIsReported /\ InOrder /\ ExactExtent /\ OnlyCompleteMessages /\ TruncationIsError /\ NeverBeyondMessage /\ NoOverBuffer
 
 \* liveness flavour checked as a state property: when everything arrived, everything is delivered
 AllDelivered == (pc = "failed" /\ trunc = Total(A) /\ (max = 0 \/ \A k \in 1..Len(A) : A[k] <= max)) => Cardinality(Msgs) = Len(A)
